@@ -50,7 +50,12 @@ pub enum Op {
     FaultOff { kind: String, f: String },
     /// rebuild through both entry points, then (if the session is synced) compare with fresh
     /// simulated processes started with the given hash-key seeds; `preregister` is used by C10
-    Checkpoint { fresh_hash_seeds: Vec<u64> },
+    Checkpoint {
+        fresh_hash_seeds: Vec<u64>,
+        /// call bundle_to_diagnostics before bundle_to_string (in the session and in the fresh process)
+        #[serde(default)]
+        diag_first: bool,
+    },
 }
 
 #[derive(Serialize, Deserialize, Clone, Debug)]
